@@ -387,6 +387,15 @@ func (s *SQLiteStore) ReadStream(ctx context.Context, from eventbus.Offset) iter
 			return
 		}
 
+		// The in-memory database is shared by the pool's connections through SQLite's shared
+		// cache, where an open cursor keeps a table-level read lock. A consumer that appends
+		// while it iterates (a replay callback or handler publishing on the bus) would wait for
+		// its own cursor forever, so the rows are read first and handed out afterwards.
+		if s.cfg.path == ":memory:" {
+			s.streamBuffered(ctx, position, &eventCount, &iterErr, yield)
+			return
+		}
+
 		// If batching is enabled, use cursor-based pagination
 		if s.cfg.streamBatchSize > 0 {
 			s.streamBatched(ctx, position, &eventCount, &iterErr, yield)
@@ -446,6 +455,54 @@ func (s *SQLiteStore) streamRows(
 		*iterErr = fmt.Errorf("sqlite: iterate events: %w", err)
 		yield(nil, *iterErr)
 		return
+	}
+}
+
+// streamBuffered reads every row after fromPosition, closes the cursor and then yields the
+// events, so that no read lock is held while the consumer runs.
+func (s *SQLiteStore) streamBuffered(
+	ctx context.Context,
+	fromPosition int64,
+	eventCount *int,
+	iterErr *error,
+	yield func(*eventbus.StoredEvent, error) bool,
+) {
+	rows, err := s.readFromStmt.QueryContext(ctx, fromPosition)
+	if err != nil {
+		*iterErr = fmt.Errorf("sqlite: read stream: %w", err)
+		yield(nil, *iterErr)
+		return
+	}
+
+	var buffered []*eventbus.StoredEvent
+	var readErr error
+	var read int
+	s.streamRows(ctx, rows, &read, &readErr, func(event *eventbus.StoredEvent, err error) bool {
+		if err != nil {
+			return false
+		}
+		buffered = append(buffered, event)
+		return true
+	})
+
+	for _, event := range buffered {
+		if err := ctx.Err(); err != nil {
+			*iterErr = err
+			yield(nil, err)
+			return
+		}
+		*eventCount++
+		if !yield(event, nil) {
+			return
+		}
+	}
+
+	if readErr == nil {
+		readErr = ctx.Err()
+	}
+	if readErr != nil {
+		*iterErr = readErr
+		yield(nil, readErr)
 	}
 }
 
